@@ -94,6 +94,9 @@ def _float_values(rng, kind, n):
 
 
 def _str_values(rng, n):
+    if n and rng.random() < 0.05:
+        base = S.lookalikes(rng)
+        return [base[i % len(base)] for i in range(n)]
     ndistinct = rng.choice([1, 2, 5, 19, 20, 21, 25, n or 1])
     alph, _ = S.alphabet(rng)
     if rng.random() < 0.3:
